@@ -175,6 +175,10 @@ def run(case, ctx):
     for p in pterm["parts"]:
         if p["p"] != "prim":
             ctx.count(f"part:{p['p']}/{cond_class(p)}")
+    if len(repr(pterm)) % 2 and obj.parts:
+        # history: the very same part objects first belong to a longer path, which is serialised before this one
+        call(lambda: DP.DataPath(*obj.parts, DP.ListValue()).to_part_specs())
+        ctx.count("history:parts-first-serialised-in-a-longer-path")
     ok, out = call(obj.to_part_specs)
     ok2, out2 = call(obj.to_json_like)
     if not ok:
@@ -217,6 +221,33 @@ def run(case, ctx):
     out = loaded
     if not ok or canon(out3) != c_out:
         ctx.violate(f"C12/not-stable-after-use/{ktail}", f"to_part_specs() after the path was used gives {out3!r}, first {out!r}")
+    # history: the very same part objects also belong to another, longer path that is serialised in between
+    ok_l, longer = call(lambda: DP.DataPath(*obj.parts, DP.ListValue()))
+    if ok_l and obj.parts:
+        call(longer.to_part_specs)
+        call(lambda: DP.DataPath(*obj.parts[:1]).to_part_specs())
+        ok, out4 = call(obj.to_part_specs)
+        ctx.count("history:parts-shared-with-another-serialised-path")
+        if not ok or canon(out4) != c_out:
+            ctx.violate(f"C12/not-stable-after-use/{ktail}", f"after another path holding the same part objects was serialised, to_part_specs() gives {out4!r}, first {out!r}")
+    # the same path composed from two pieces with `/` serialises to specs that rebuild to a path selecting the same nodes
+    if len(obj.parts) >= 2:
+        k = len(obj.parts) // 2
+        simp = list(obj.simplify())  # (primitives where a part is what a primitive denotes: the left piece may be concrete)
+        ok_c, comp = call(lambda: DP.DataPath(*simp[:k]) / DP.DataPath(*simp[k:]))
+        ok_s, cspecs = call(comp.to_part_specs) if ok_c else (False, None)
+        if ok_c and ok_s:
+            try:
+                okr, rc = call(DP.DataPath.from_part_specs, *json.loads(json.dumps(cspecs)))
+            except (TypeError, ValueError):
+                okr, rc = False, None
+            ctx.count("composed-path-serialised")
+            if okr:
+                for doc in case["probes"]:
+                    a, b = norm_sel(comp, doc), norm_sel(rc, doc)
+                    if a != b:
+                        ctx.violate(f"C12/silent/{ktail}", f"composed path {comp!r} serialised as {cspecs!r}; on probe {doc!r}\n composed selects {a}\n rebuilt selects {b}")
+                        break
     # the other serialised form of a path, `to_spec()` -> JSON -> `from_spec` / `from_json_like` (what conditions use for their
     # data-path arguments)
     oks, spec1 = call(obj.to_spec)
